@@ -1159,6 +1159,12 @@ func (db *DB) Repair(of Object) (err error) {
 		return
 	}
 
+	// objects accepted but not written yet are not on disk, they
+	// must be before we look at what is missing
+	if err = db.flushAll(of); err != nil {
+		return
+	}
+
 	// we re-index missing objects in index
 	if uuids, err = uuidsFromDir(dir); err != nil {
 		return
